@@ -134,4 +134,23 @@ def run(db, chk):
         g = [c for c in comparisons(st) if any(c[s].get("def", "").endswith("::MAX_LINE_LEN") for s in ("a", "b"))]
         chk.ob("streaming-bounds-line", "%s decode::streaming" % crate, bool(g), "must compare the wanted length with MAX_LINE_LEN", "%s:%d" % (st.file, st.line), key="streaming-bounds-line|%s" % crate)
         payload_bound_rule(db, chk, crate)
+        encoder_length_rule(db, chk, crate)
     chk.assumptions.append("async-io variant (coroutines) not analysed; blocking-io build only")
+
+
+def encoder_length_rule(db, chk, crate):
+    """the 4-digit length prefix an encoder emits never exceeds MAX_LINE_LEN: the value handed to u16_to_hex is, as a linear form over the lengths of
+    prefix, data and suffix, bounded by the dominating limit check (BND prover: MAX_LINE_LEN - emitted >= 0 follows from the guard)."""
+    from gx import bnd, lin
+    f = db.one(r"^%s::encode::blocking_io::prefixed_and_suffixed_data_to_write$" % crate)
+    pr = bnd.Prover(f)
+    calls = f.calls_to(r"encode::u16_to_hex$")
+    chk.floor("%s encoder: u16_to_hex call" % crate, len(calls), 1)
+    limit = db.const("%s::MAX_LINE_LEN" % crate)["v"]
+    for c in calls:
+        x = pr.ev.value(c.args[0])
+        e = lin.Lin({}, limit) - x
+        ok = pr.prove(e, c.block)
+        chk.ob("emitted-length-bounded", "%s prefixed_and_suffixed_data_to_write" % crate, ok,
+               "the emitted length is %s; no dominating check bounds it by MAX_LINE_LEN (%d): lines with prefixes above fff0 can be written, which every reader rejects" % (x, limit),
+               c.where(), key="emitted-length-bounded|%s" % crate)
